@@ -160,6 +160,8 @@ pub enum NumStyle {
     Plain,
     Grouped,
     DollarPrefix,
+    /// `$-1,234.50`: the sign follows the currency symbol (spreadsheet currency format)
+    DollarThenMinus,
 }
 
 pub fn cell_number(q: Q, scale: u32, style: NumStyle) -> String {
@@ -176,6 +178,7 @@ pub fn cell_number(q: Q, scale: u32, style: NumStyle) -> String {
     let sign = if m < 0 { "-" } else { "" };
     match style {
         NumStyle::DollarPrefix => format!("{}${}", sign, body),
+        NumStyle::DollarThenMinus => format!("${}{}", sign, body),
         _ => format!("{}{}", sign, body),
     }
 }
@@ -339,7 +342,7 @@ impl CsvCase {
             note_col: rng.chance(1, 2),
             category_col: rng.chance(1, 2),
             payee_template: false,
-            num_style: *rng.pick(&[NumStyle::Plain, NumStyle::Plain, NumStyle::Grouped, NumStyle::DollarPrefix]),
+            num_style: *rng.pick(&[NumStyle::Plain, NumStyle::Plain, NumStyle::Grouped, NumStyle::DollarPrefix, NumStyle::DollarThenMinus]),
             scale,
             rate_mode: if rng.chance(1, 2) { RateMode::PriceOfSecondary } else { RateMode::PriceOfPrimary },
             compute: rng.chance(1, 3),
@@ -362,6 +365,9 @@ impl CsvCase {
             if rng.chance(3, 5) {
                 day += chrono::Duration::days(rng.range(1, 9));
             }
+            // with a running-balance column the sequence of the statement is what counts: now and
+            // then a row booked late carries an earlier date than the row before it
+            let row_day = if layout.balance_col && rng.chance(1, 10) { day - chrono::Duration::days(rng.range(1, 6)) } else { day };
             let mag = Q::int(rng.range(1, 300000) as i128).mul(unit).unwrap();
             let mut amount = if rng.chance(2, 5) { mag } else { mag.neg() };
             let mut conv = None;
@@ -401,7 +407,7 @@ impl CsvCase {
             let conversion_disabled = layout.disable_rule && !layout.payee_template && conv.is_some() && charge.is_none() && rng.chance(1, 2);
             rows.push(CsvRow {
                 conversion_disabled,
-                date: day,
+                date: row_day,
                 payee: if conversion_disabled { format!("NOCONV {}", rng.pick(payees)) } else { rng.pick(payees).to_string() },
                 category: rng.pick_str(CATEGORIES).to_string(),
                 note: if rng.chance(1, 2) { rng.pick(notes).to_string() } else { String::new() },
